@@ -69,7 +69,7 @@ def main():
             sh(f"git -C /repo worktree remove --force {wt}")
             shutil.rmtree(wt, ignore_errors=True)
         # regenerate the Lean definitions from the unchanged tree so that the next build is clean
-        sh(f"{sys.executable} {ROOT}/tools/py2lean.py --repo /repo --out {ROOT}/lean/SparseV/Generated")
+        sh(f"/venv/bin/python {ROOT}/tools/py2lean.py --repo /repo --out {ROOT}/lean/SparseV/Generated")
     res["caught"] = any(x["exit"] == 1 for v in res["checks"].values() for x in v)
     print(json.dumps(res, indent=1))
     (d / f"result_{a.tier}.json").write_text(json.dumps(res, indent=1))
